@@ -74,6 +74,7 @@ class Spec:
         self.constraints = kw.pop("constraints", [])
         self.objective = kw.pop("objective", [])           # list of (kind, E[, opts])
         self.initial = kw.pop("initial", [])
+        self.initial_after = kw.pop("initial_after", 0)     # number of trailing guesses given AFTER the first transcription
         self.scales = kw.pop("scales", {})                 # 'x': value/list, 'u', 'z', 'v', 'der'
         self.param_values = kw.pop("param_values", "unknown")
         self.solver = kw.pop("solver", "ipopt")
@@ -113,6 +114,11 @@ class Spec:
         if self.method == "SS":
             return SingleShooting(intg=self.intg, **kw)
         if self.method == "DC":
+            # a method object is a function of its own arguments only: another collocation method of the same degree and
+            # the OTHER scheme (and one of another degree) built earlier in the same process must not influence it
+            other = "legendre" if self.scheme == "radau" else "radau"
+            DirectCollocation(degree=self.degree, scheme=other, N=1)
+            DirectCollocation(degree=self.degree + 1, scheme=self.scheme, N=1)
             return DirectCollocation(degree=self.degree, scheme=self.scheme, **kw)
         raise ValueError(self.method)
 
@@ -244,10 +250,15 @@ class Spec:
                 raise ValueError(kind)
         # initial guesses
         self.initial_realised = []
-        for tgt, val in self.initial:
+        self._late = []
+        n_early = len(self.initial) - (len(self.initial) if self.initial_after == "all" else self.initial_after)
+        for i, (tgt, val) in enumerate(self.initial):
             v = self.initial_value(val)
             self.initial_realised.append((tgt, val if isinstance(val, E) else v))
-            ocp.set_initial(self.initial_target(tgt), v)
+            if i < n_early:
+                ocp.set_initial(self.initial_target(tgt), v)
+            else:
+                self._late.append((self.initial_target(tgt), v))
         if self.solver and parent is None and not template:
             ocp.solver(self.solver)
         ocp.method(self.make_method())
@@ -280,6 +291,9 @@ class Spec:
     def transcribe(self):
         """transcribe and return the method object of the transcribed copy"""
         self.ocp._transcribe() if False else self.ocp._transcribed
+        for tgt, v in getattr(self, "_late", []):
+            self.ocp.set_initial(tgt, v)         # guesses given after the first transcription (no re-transcription: the flag stays set)
+        self._late = []
         aug = self.ocp._augmented
         self.aug = aug
         self.meth = aug._method
